@@ -134,6 +134,57 @@ func VerifC20CrossGraph(n, e int) {
 	verifrt.Assert(len(dst.mutations) == 0, "nothing is written to the target database when the input is rejected")
 }
 
+// VerifC20GraphCounts: a collection of a non-empty graph followed by an empty one whose
+// manifest is edited so that a graph's counts no longer match its fragment list (the empty
+// graph claims entities; the first graph's fragment list is emptied). Load must fail before
+// anything is written.
+func VerifC20GraphCounts(n, e int) {
+	dir := verifWorkDir()
+	defer verifCleanupWorkDir(dir)
+	ctx := context.Background()
+	src, targets := verifFixedSource(n, e, 1)
+	src.graphData("omega")
+	targets = append(targets, GraphTarget{Name: "omega"})
+	out := filepath.Join(dir, "dump")
+	options := DefaultDumpOptions(out)
+	options.Compression = CompressionNone
+	options.BatchSize = 2
+	options.ShardSize = 2
+	if _, err := Dump(ctx, src, "test", targets, options); err != nil {
+		verifrt.Fail("the dump that is to be edited failed")
+	}
+	manifest, err := readManifest(out)
+	if err != nil || len(manifest.Graphs) != 2 {
+		verifrt.Fail("the dump has no readable manifest")
+	}
+	switch verifrt.NondetChoice("edit", 4) {
+	case 0:
+		manifest.Graphs[1].NodeCount = 1
+	case 1:
+		manifest.Graphs[1].EdgeCount = 2
+	case 2:
+		manifest.Graphs[1].NodeCount, manifest.Graphs[1].EdgeCount = 3, 1
+	default:
+		// the second graph keeps its counts of zero but is listed first; the first graph's
+		// fragment list is emptied while its counts stay
+		manifest.Graphs[0].Files = nil
+	}
+	if verifrt.NondetChoice("metrics section dropped", 2) == 1 {
+		// the metrics section repeats the counts; a forger simply leaves it out
+		manifest.Metrics = nil
+	}
+	payload, _ := json.MarshalIndent(manifest, "", "  ")
+	if verifOsWriteFile(filepath.Join(out, manifestFileName), append(payload, '\n'), 0o600) != nil {
+		return
+	}
+	dst := verifNewDatabase()
+	loadOptions := DefaultLoadOptions(out)
+	loadOptions.BatchSize = 2
+	_, err = Load(ctx, dst, "test", loadOptions)
+	verifrt.Assert(err != nil, "a manifest whose graph counts contradict its fragment lists is rejected")
+	verifrt.Assert(len(dst.mutations) == 0, "nothing is written to the target database when the input is rejected")
+}
+
 func VerifC20Tamper(n, e, kind int) {
 	dir := verifWorkDir()
 	defer verifCleanupWorkDir(dir)
